@@ -74,21 +74,19 @@ pub struct RunInfo {
 }
 
 /// Prints verdict lines, writes replay files; returns the number of unlisted violations.
-pub fn conclude(info: &RunInfo, violations: &[Violation]) -> (usize, usize) {
+pub fn conclude(info: &RunInfo, violations: &[Violation], extra_counts: &BTreeMap<String, u64>) -> (usize, usize) {
     let known = load_known_findings();
     // first (= shortest history, BFS order) violation per signature
     let mut by_sig: BTreeMap<String, &Violation> = BTreeMap::new();
     let mut counts: BTreeMap<String, usize> = BTreeMap::new();
     for v in violations {
-        if v.replay.is_null() && !by_sig.contains_key(&v.signature) {
-            // body-less duplicates never come first; keep looking for the materialised one
-            if violations.iter().any(|w| w.signature == v.signature && !w.replay.is_null()) {
-                *counts.entry(v.signature.clone()).or_insert(0) += 1;
-                continue;
-            }
-        }
         by_sig.entry(v.signature.clone()).or_insert(v);
         *counts.entry(v.signature.clone()).or_insert(0) += 1;
+    }
+    for (k, n) in extra_counts {
+        if let Some(c) = counts.get_mut(k) {
+            *c = (*c).max(*n as usize);
+        }
     }
     let mut matched: BTreeMap<usize, usize> = BTreeMap::new();
     let mut fresh: Vec<&Violation> = vec![];
